@@ -1,21 +1,161 @@
-(* Witnesses and non-vacuity examples for the C11 model. *)
-From Verif Require Import Yaml.Scalar.
+(* Witnesses (refutations) and non-vacuity examples for the C11 model.
+   The oracles are instantiated with the values the implementation's libraries
+   give on the witness strings (checked on every run: the witnesses are part of
+   the harness corpus): no witness is a number or a timestamp, and the only
+   non-printable rune used is U+00A0. *)
+From Verif Require Import Yaml.Scalar Yaml.Proofs Yaml.Literal Yaml.Style.
 From Coq Require Import List NArith Bool String.
 Import ListNotations.
 Open Scope N_scope.
 
-Section Ex.
-  (* any oracles *)
-  Variable is_print : N -> bool.
-  Variable tok_number tok_isnumber tok_timestamp : str -> bool.
+Definition ex_print (c : N) : bool := (32 <=? c) && (c <? 127) || (161 <=? c).
+Definition ex_no (_ : str) : bool := false.
+Definition ex_choose := choose_style ex_no ex_no ex_no.
+Definition ex_read := read_any ex_no.
+Definition ex_doc := emit_doc ex_print.
 
-  (* F4: the string "\n" is written as a clip-chomped literal block and reads back empty *)
-  Lemma literal_refuted_newline :
-    block_literal_safe [c_nl] = true /\
-    value_style tok_number tok_isnumber tok_timestamp true [c_nl] = Literal /\
-    emit_literal 2 [c_nl] = s_ "|
+Lemma ex_print_not_break : forall c, ex_print c = true -> is_break c = false.
+Proof.
+  intros c H. unfold is_break. destruct (c =? c_nl) eqn:E1; [apply N.eqb_eq in E1; subst; discriminate|].
+  destruct (c =? c_cr) eqn:E2; [apply N.eqb_eq in E2; subst; discriminate|]. reflexivity.
+Qed.
+
+Lemma ex_number_isnumber : forall t, ex_no t = true -> ex_no t = true.
+Proof. auto. Qed.
+
+Definition nl1 : str := [c_nl].
+Definition val_suffix : str := [c_nl].
+Definition key_suffix : str := s_ ": 1
+".
+
+(* F4: the string "\n" as a map value: literal style with header "|", reads back as "" *)
+Lemma literal_refuted_newline :
+  block_literal_safe nl1 = true /\
+  ex_choose false true nl1 = Literal /\
+  ex_doc Literal 2 nl1 val_suffix = s_ "|
 
 " /\
-    parse_literal 0 false (emit_literal 2 [c_nl]) = Some [].
-  Proof. repeat split; vm_compute; reflexivity. Qed.
-End Ex.
+  ex_read 0 false false val_suffix (ex_doc Literal 2 nl1 val_suffix) = Some [] /\
+  literal_ok nl1 = false /\ literal_gap nl1 = true.
+Proof. repeat split; vm_compute; reflexivity. Qed.
+
+(* "\n a": the first content line starts with a blank; the reader takes the
+   block's indentation from it *)
+Definition nl_sp_a : str := s_ "
+ a".
+Lemma literal_refuted_space :
+  block_literal_safe nl_sp_a = true /\
+  ex_choose false true nl_sp_a = Literal /\
+  ex_read 0 false false val_suffix (ex_doc Literal 2 nl_sp_a val_suffix) = Some (s_ "
+a") /\
+  literal_ok nl_sp_a = false /\ literal_gap nl_sp_a = true.
+Proof. repeat split; vm_compute; reflexivity. Qed.
+
+(* F4: the string "..." as the root value (column 0) is left plain: a document
+   end marker.  As a key ("...: 1") the text is a plain scalar for YAML, but not
+   for the implementation's scanner (deviation_examples below). *)
+Definition dots : str := s_ "...".
+Lemma style_choice_refuted_dots :
+  ex_choose false false dots = Plain /\ ex_choose true false dots = Plain /\
+  style_gap ex_print true Plain dots = true /\
+  plain_ok true dots = false /\
+  ex_read 0 true true val_suffix (ex_doc Plain 2 dots val_suffix) = None.
+Proof. repeat split; vm_compute; reflexivity. Qed.
+
+(* "#" followed by U+00A0: goccy quotes with single quotes and Go escapes *)
+Definition hash_nbsp : str := [c_hash; 160].
+Lemma style_choice_refuted_nbsp :
+  ex_choose false false hash_nbsp = SingleGo /\
+  style_gap ex_print false SingleGo hash_nbsp = true /\
+  ex_doc SingleGo 2 hash_nbsp val_suffix = s_ "'#\u00a0'
+" /\
+  ex_read 0 false false val_suffix (ex_doc SingleGo 2 hash_nbsp val_suffix) = Some (s_ "#\u00a0").
+Proof. repeat split; vm_compute; reflexivity. Qed.
+
+(* "? " followed by a carriage return: cue's singleQuoted writes the break raw *)
+Definition qm_cr : str := [c_qm; c_sp; c_cr].
+Lemma style_choice_refuted_cr :
+  ex_choose false false qm_cr = SingleCue /\
+  style_gap ex_print false SingleCue qm_cr = true /\
+  ex_read 0 false false val_suffix (ex_doc SingleCue 2 qm_cr val_suffix) = None.
+Proof. repeat split; vm_compute; reflexivity. Qed.
+
+(* non-vacuity: the hypotheses of the conditional theorems are met by ordinary strings *)
+Definition multi_ex : str := s_ "key: value
+  indented # not a comment
+
+last".
+Example literal_ok_example :
+  literal_ok multi_ex = true /\ ex_choose false true multi_ex = Literal /\
+  ex_read 2 false false val_suffix (ex_doc Literal 4 multi_ex val_suffix) = Some multi_ex.
+Proof. repeat split; vm_compute; reflexivity. Qed.
+
+Example literal_keep_example :
+  literal_ok (s_ "a
+
+") = true /\ literal_ok [c_nl; c_nl] = true /\
+  ex_read 0 true false val_suffix (ex_doc Literal 2 [c_nl; c_nl] val_suffix) = Some [c_nl; c_nl].
+Proof. repeat split; vm_compute; reflexivity. Qed.
+
+Example plain_ok_example :
+  plain_ok true (s_ "http://a.b/c?d=e#f") = true /\
+  ex_choose true false (s_ "-a:b") = Plain /\ plain_ok true (s_ "-a:b") = true /\
+  ex_read 0 false true key_suffix (ex_doc Plain 2 (s_ "-a:b") key_suffix) = Some (s_ "-a:b").
+Proof. repeat split; vm_compute; reflexivity. Qed.
+
+Example styles_example :
+  ex_choose false false (s_ "yes") = Double /\ ex_choose false false (s_ "1e3") = Double /\
+  ex_choose false false (s_ "2001-12-14") = Double /\ ex_choose false false (s_ "a: b") = SingleGo /\
+  ex_choose false false (s_ "? x") = SingleCue /\ ex_choose true false (s_ "a
+b") = Double /\
+  ex_choose false false (s_ "plain text") = Plain /\ ex_choose false false [] = Double.
+Proof. repeat split; vm_compute; reflexivity. Qed.
+
+Example gap_false_example :
+  style_gap ex_print true (ex_choose true false (s_ "a b")) (s_ "a b") = false /\
+  style_gap ex_print false (ex_choose false false (s_ "it's")) (s_ "it's") = false.
+Proof. split; vm_compute; reflexivity. Qed.
+
+(* reader deviations of the pinned tree (Yaml/Scalar.v): the YAML reading is right, the
+   implementation's reader differs *)
+Example deviation_examples :
+  ex_read 0 false true key_suffix (s_ "...: 1
+") = Some (s_ "...") /\ quirk_dots true true (s_ "...") = true /\
+  ex_read 0 false true key_suffix (s_ "...a: 1
+") = Some (s_ "...a") /\ quirk_dots true true (s_ "...a") = true /\
+  ex_read 0 false true key_suffix (s_ "a<<: 1
+") = Some (s_ "a<<") /\ quirk_merge true true (s_ "a<<") = true /\
+  parse_literal 0 false (s_ "|-
+
+  	a
+  b
+") = Some (s_ "
+	a
+b") /\ goccy_literal (s_ "|-
+
+  	a
+  b
+") = None /\
+  quirk_blank_followed true true [c_nl; c_nl] = true.
+Proof. repeat split; vm_compute; reflexivity. Qed.
+
+(* JSON scalars under the YAML reading *)
+Definition json_simple_escape (c : N) : option N :=
+  if c =? 34 then Some 34 else if c =? 92 then Some 92 else if c =? 47 then Some 47
+  else if c =? 98 then Some 8 else if c =? 102 then Some 12 else if c =? 110 then Some 10
+  else if c =? 114 then Some 13 else if c =? 116 then Some 9 else None.
+
+Lemma json_escapes_same : forall e v, json_simple_escape e = Some v -> simple_escape e = Some v.
+Proof.
+  intros e v H. unfold json_simple_escape in H.
+  repeat match type of H with
+         | (if ?b then _ else _) = _ =>
+           let E := fresh "E" in destruct b eqn:E; [apply N.eqb_eq in E; subst e; exact H|]
+         end.
+  discriminate.
+Qed.
+
+Lemma json_literals_resolve : forall tok_number,
+  resolve_plain tok_number (s_ "true") = TBool /\ resolve_plain tok_number (s_ "false") = TBool /\
+  resolve_plain tok_number (s_ "null") = TNull.
+Proof. intro. repeat split; reflexivity. Qed.
